@@ -4,7 +4,7 @@
 jobs=${1:-4}; tier=${2:-quick}
 HERE=$(cd "$(dirname "$0")/.." && pwd)
 mkdir -p /tmp/seedwork
-ls -d "$HERE"/seeded/C*-* | while read d; do p=$(basename $d | cut -d- -f1); echo "$p $d $tier"; done | xargs -P $jobs -L 1 bash "$HERE/tools/seedrun2.sh" > /tmp/seedwork/seedall.out 2>&1
+ls -d "$HERE"/seeded/C*-* | while read d; do grep -q '"status": "superseded' $d/meta.json && continue; p=$(basename $d | cut -d- -f1); echo "$p $d $tier"; done | xargs -P $jobs -L 1 bash "$HERE/tools/seedrun2.sh" > /tmp/seedwork/seedall.out 2>&1
 sort /tmp/seedwork/seedall.out | awk '{print $1, $2, $4, $5}'
 missed=$(grep -c "exit=0" /tmp/seedwork/seedall.out); broken=$(grep -c "exit=2\|FAIL" /tmp/seedwork/seedall.out)
 echo "seeded changes: $(wc -l < /tmp/seedwork/seedall.out); not reported: $missed; machinery errors: $broken"
